@@ -1,24 +1,61 @@
 #!/bin/bash
-# Confirm a seeded change in its scratch worktree: the demonstration test fails with patch.diff applied and passes
-# without it, and the neighbouring existing tests pass both ways.
-#   tools/confirm_seed.sh <worktree> <package> <test-filter> <demo-test-name> [extra cargo args]
+# Confirm a seeded change (or a defect reproduction) in its scratch worktree: the demonstration test fails with patch.diff
+# applied and passes without it, and the neighbouring existing tests pass both ways.
+#   tools/confirm_seed.sh <worktree> <package> <crate-dir> <target-selector> <test-filter> <demo-test-name>
+#     e.g. tools/confirm_seed.sh /tmp/seed-c10 lance rust/lance --lib io::commit::external_manifest test_failed_flip
+#          tools/confirm_seed.sh /tmp/seed-c02 lance-table rust/lance-table "--test commit_lock_race" lock_handler lock_handler
 # The worktree must contain patch.diff and demo.diff.  The build directory (/repo/target) is shared between worktrees and
-# cargo names the test binary identically for all of them, so every workspace source of the worktree is touched before
-# each build and the log is checked for "Compiling <package> ... (<worktree>/...)" and for the demo test's name.
+# cargo names the test binary identically for all of them, so: every workspace source of the worktree is touched before
+# each build, the build is --no-run with JSON messages, the test executable must be reported as not fresh and compiled from
+# this worktree, it is copied aside at once and the COPY is run; the demo test must appear in its output.
 set -u
-WT=$1; PKG=$2; FILTER=$3; DEMO=$4; shift 4
+WT=$1; PKG=$2; DIR=$3; SEL=$4; FILTER=$5; DEMO=$6
 export CARGO_NET_OFFLINE=true CARGO_TARGET_DIR=${CARGO_TARGET_DIR:-/repo/target} RUST_BACKTRACE=0
 cd "$WT" || exit 2
+mkdir -p "$WT/bins"
 git checkout -q -- . 2>/dev/null
-run() {   # label
-  find rust protos -name '*.rs' -o -name '*.proto' | xargs touch
-  cargo test --offline -p "$PKG" --lib "$@" -- "$FILTER" > "$WT/confirm_$LABEL.log" 2>&1
-  grep -q "Compiling $PKG v.*($WT" "$WT/confirm_$LABEL.log" || { echo "[$LABEL] NOT BUILT FROM $WT"; return 2; }
-  grep -E "^test .*$DEMO|^test result" "$WT/confirm_$LABEL.log"
+build_run() {   # label
+  local label=$1 tries=0 exe=""
+  while [ $tries -lt 3 ]; do
+    tries=$((tries+1))
+    find rust protos \( -name '*.rs' -o -name '*.proto' \) -print0 | xargs -0 touch
+    cargo test --offline -p "$PKG" $SEL --no-run --message-format=json 2> "$WT/confirm_$label.build.log" > "$WT/confirm_$label.json"
+    exe=$(python3 - "$WT" "$WT/confirm_$label.json" <<'PY'
+import json, sys
+wt, path = sys.argv[1], sys.argv[2]
+best = ""
+for l in open(path):
+    try:
+        m = json.loads(l)
+    except Exception:
+        continue
+    if m.get("reason") == "compiler-artifact" and m.get("executable") and m.get("profile", {}).get("test"):
+        if m["target"]["src_path"].startswith(wt + "/") and not m.get("fresh", True):
+            best = m["executable"]
+print(best)
+PY
+)
+    if [ -n "$exe" ] && [ -x "$exe" ]; then cp "$exe" "$WT/bins/$label"; break; fi
+    exe=""; sleep 5
+  done
+  if [ -z "$exe" ]; then echo "[$label] could not obtain a test binary compiled from $WT"; return 2; fi
+  ( cd "$WT/$DIR" && "$WT/bins/$label" "$FILTER" > "$WT/confirm_$label.log" 2>&1 )
+  if ! grep -q "$DEMO" "$WT/confirm_$label.log"; then echo "[$label] demo test not in the binary"; return 2; fi
+  grep -E "^test .*$DEMO|^test result" "$WT/confirm_$label.log"
+  rm -f "$WT/bins/$label"
 }
+if [ "${FIXMODE:-0}" = 1 ]; then
+  # defect reproduction: HEAD has the defect; fix.diff repairs it.  The demo must fail before and pass after.
+  git apply demo.diff || { echo "demo did not apply"; exit 2; }
+  echo "== before the fix (HEAD)"; build_run before
+  git apply fix.diff || exit 2
+  echo "== after the fix"; build_run after
+  git checkout -q -- .
+  exit 0
+fi
 git apply patch.diff && git apply demo.diff || { echo "patch/demo did not apply"; exit 2; }
-LABEL=with; echo "== with the change"; run "$@"
+echo "== with the change"; build_run with
 git apply -R patch.diff || exit 2
-LABEL=without; echo "== without the change"; run "$@"
+echo "== without the change"; build_run without
 git apply -R demo.diff
 git status --short | grep -v '^??' && echo "worktree not clean" || echo "worktree back to HEAD"
